@@ -15,6 +15,7 @@ import traceback
 
 import z3
 
+from . import REPO
 from .ctx import Ctx, Obligation, PyRaise
 from .interp import AnchorNotFound, Interp
 from .values import Unsupported
@@ -299,8 +300,8 @@ def native(script, payload, timeout=600):
     """run a native driver under the repository's python; returns parsed JSON of its last line"""
     p = subprocess.run(
         [NATIVE_PY, os.path.join(VERIF, "pdv", "native", script)],
-        input=json.dumps(payload), capture_output=True, text=True, timeout=timeout, cwd="/repo",
-        env={**os.environ, "PYTHONPATH": "/repo", "NUMBA_DISABLE_JIT": os.environ.get("PDV_NUMBA_DISABLE_JIT", "0")},
+        input=json.dumps(payload), capture_output=True, text=True, timeout=timeout, cwd=REPO,
+        env={**os.environ, "PYTHONPATH": REPO, "NUMBA_DISABLE_JIT": os.environ.get("PDV_NUMBA_DISABLE_JIT", "0")},
     )
     lines = [l for l in p.stdout.strip().splitlines() if l.startswith("{")]
     if not lines:
